@@ -71,6 +71,12 @@ def check(run):
         # only the decision / discard clauses belong to this property; the update algebra is reported by C05
         rep.obligations = [ob for ob in rep.obligations if ob.name.startswith("C06.") or ".records_innovation" in ob.name or ".frame." in ob.name or ".no_exception" in ob.name]
         triage_generic(run, rep, lambda shape, seed, container="set": native([max(shape[0], 1), shape[1], shape[2], shape[3]], seed, container=container), "sensor_model", extra_native=[discard_scenario, battery])
+    # exact / one-ulp boundary batteries on the real python function (always: the boundary is invisible to real arithmetic)
+    run.native_runs += 1
+    bat, bsc = battery()
+    run.bounded.append({"what": "python remove_innovation called directly: exact boundary (m=2,k=1.5: bound 5), non-identity S^-1, disabled, and a 9 x 7 grid of (k, m) with NIS at the IEEE bound fl(k*sqrt(2m)+m) and one ulp either side", "bound": "7 + 189 calls", "failures": len(bat), "counted_as_proved": False})
+    for p in bat[:1]:
+        run.findings.append(Finding("C06.py.remove_innovation.native_boundary_battery", "boundary", p, {"language": "python", "inputs": {"shape": [2, 0, 1, 2], "seed": run.seed, "extra_scenario": True}, "oracle_verdict": bat[:5]}, True))
     try:
         from checks import cxx_innovation
 
